@@ -219,6 +219,25 @@ func genC16(c *Cfg, emit func([]string)) {
 		h = check(h)
 		emit(h)
 	}
-	c.Rule = fmt.Sprintf("%d random histories of 3..%d add/sub/move operations (amounts incl. 0, -1, exactly-to-zero and back) over 3 addresses x 3 tokens (+ token-less balances) x 4 balance kinds, each executed either directly on the peer stub or through the batch+transaction cache layers; one third start from legacy data (primaries only) followed by createIndex for every kind; ListOwnersByToken compared with direct reads of every (kind, token, address) after random steps and for the full matrix at the end; createIndex's ledger diff restricted to balance keys. non-trivial = contains a mutation; distinct = sha256", nHist, maxSteps+2)
+	// large legacy data sets: an index builder that reads in pages must not lose a record at a page
+	// boundary (sizes around 500 and 1000, the usual page sizes, and one above 2 pages)
+	bulks := [][2]string{{"2b", "501"}, {"2c", "1100"}}
+	if c.Thorough() {
+		bulks = [][2]string{{"2b", "499"}, {"2b", "500"}, {"2b", "501"}, {"2c", "1000"}, {"2c", "1001"}, {"2e", "1100"}, {"2d", "2051"}, {"2b", "101"}, {"2c", "257"}}
+	}
+	for _, bk := range bulks {
+		n, _ := strconv.Atoi(bk[1])
+		h := []string{"reset"}
+		for j := 0; j < n; j++ {
+			h = append(h, fmt.Sprintf("legacy %s h%05d USD %d", bk[0], j, 1+j%97))
+		}
+		h = append(h, "legacy "+bk[0]+" h00007 EUR 5", "index "+bk[0])
+		for j := 0; j < n; j++ {
+			h = append(h, fmt.Sprintf("get %s h%05d USD", bk[0], j))
+		}
+		h = append(h, "owners "+bk[0]+" USD", "owners "+bk[0]+" EUR")
+		emit(h)
+	}
+	c.Rule = fmt.Sprintf("%d random histories of 3..%d add/sub/move operations (amounts incl. 0, -1, exactly-to-zero and back) over 3 addresses x 3 tokens (+ token-less balances) x 4 balance kinds, each executed either directly on the peer stub or through the batch+transaction cache layers; one third start from legacy data (primaries only) followed by createIndex for every kind; ListOwnersByToken compared with direct reads of every (kind, token, address) after random steps and for the full matrix at the end; createIndex's ledger diff restricted to balance keys; plus legacy data sets of 500..2000 records of one kind indexed at once and listed in full. non-trivial = contains a mutation; distinct = sha256", nHist, maxSteps+2)
 	c.Extra = map[string]any{"histories": nHist}
 }
